@@ -120,6 +120,39 @@ def command_scripts(name, max_slots=None, max_forms=None):
         yield wrap(name, f)
 
 
+def crosstag_scripts(name):
+    """tag applicability across the whole table: every tag (and every tag-parameter value that is itself a tag) any command
+    knows, put in tag position of `name`'s minimal valid use, bare and with the parameter shapes its donors give it"""
+    c = T.COMMANDS[name]
+    if c["tests"] or name in ("if", "elsif", "else"):
+        return
+    donors = {}
+    for cn, cc in sorted(T.COMMANDS.items()):
+        for s in cc["slots"]:
+            for tag, (ext, ptype, values) in s.items():
+                donors.setdefault(tag, set()).add(ptype)
+                for v in values or ():
+                    if v.startswith(":"):
+                        donors.setdefault(v, set()).add(None)
+        for p in cc["pos"]:
+            if isinstance(p, tuple):
+                for v in p[1]:
+                    donors.setdefault(v, set()).add(None)
+    base = command_forms(name, max_slots=0, max_forms=1)[0]
+    seen = set()
+    for tag in sorted(donors):
+        shapes = [[tag], [tag, "STR"], [tag, "STR", "STR"]]
+        if "n" in donors[tag]:
+            shapes.append([tag, "NUM"])
+        if "sl" in donors[tag]:
+            shapes.append([tag, "LIST2"])
+        for sh in shapes:
+            for f in (tuple([name] + sh + list(base[1:])), tuple(list(base) + sh)):
+                if f not in seen:
+                    seen.add(f)
+                    yield wrap(name, f)
+
+
 def repeat_scripts(name):
     """the same optional tag slot filled twice (irregular for C01/C03, but C02/C04/C07 still claim accepted inputs)"""
     c = T.COMMANDS[name]
